@@ -121,6 +121,15 @@ def step (st : St) (line : String) : St × String :=
       match natList (words (op.drop 2).toString) with
       | some ps => (st, stepF st ps impl)
       | none => (st, "BADLINE f")
+    else if op.startsWith "ts " then
+      match (words (op.drop 3).toString).map String.toInt? with
+      | [some y, some m, some d, some tod, some tz] =>
+        let model := match timestampNs y m.toNat d.toNat tod tz with
+          | .ok ns => toString ns
+          | _ => "PANIC"
+        if impl == "PANIC" then (st, "JUDGE C41 parse_timestamp panicked")
+        else (st, verdict model impl)
+      | _ => (st, "BADLINE ts")
     else (st, "BADLINE op")
 
 --! vmodel: parsertext => Varpulis.Driver.ParserTextD.driver
